@@ -22,9 +22,15 @@ POOL_KWPREFIX = [
     "salty", "splitters_n", "inside", "input", "andy", "or_else", "info", "format", "organic", "notes", "define",
     "ifx", "else_", "in_", "not_", "innings", "saltwater", "and_", "or_", "elseif_x", "weightedx", "returned",
     "definition", "notin", "splitters2", "if_", "def_", "IN", "If", "NOT", "Def", "RETURN", "Or",
+    # a keyword directly followed by a digit is an identifier too
+    "in2", "or1", "if0", "def9", "salt1", "not1", "and3", "else5", "return7", "weighted2", "in2x", "not1_in",
 ]
 POOL_SHAPE = ["_", "_x", "__", "X", "Name", "a1", "a", "b", "k", "z", "Q", "x_1_y", "camelCase", "ALLCAPS", "_9",
-              "v" * 64, "match", "case", "type", "print", "len", "list", "int", "id", "hash", "self", "cls"]
+              "v" * 64, "match", "case", "type", "print", "len", "list", "int", "id", "hash", "self", "cls",
+              # words that are literals or operators in other languages, not in this one
+              "true", "false", "null", "none", "nil", "nan", "inf", "yes", "no", "is_", "xor", "like", "between",
+              # names of the generated code's own parameters and locals, as far as a reader of the README can guess them
+              "salt_", "key", "w", "args", "population", "weights", "cum_weights", "input_id", "k", "u"]
 # identifiers that are Python hard keywords (not DSL keywords) or names the generated code uses
 POOL_HOSTILE = [
     "class", "for", "lambda", "None", "True", "False", "is", "as", "assert", "async", "await", "break", "continue",
